@@ -42,7 +42,7 @@ class ImmutableKnotVector(tuple):
                 return False
         if degree is None:
             degree = 0
-            while vector[degree] == vector[degree + 1]:
+            while degree + 2 < lenght and vector[degree] == vector[degree + 1]:
                 degree += 1
         npts = lenght - degree - 1
         if not degree < npts:
@@ -52,7 +52,9 @@ class ImmutableKnotVector(tuple):
             mult = vector.count(knot)
             if mult > degree + 1:
                 return False
-        if vector.count(vector[degree]) != vector.count(vector[npts]):
+        if vector.count(vector[0]) != degree + 1:
+            return False
+        if vector.count(vector[-1]) != degree + 1:
             return False
         return True
 
